@@ -52,6 +52,9 @@ CLAIMED = {
  "C16": ("corr-sched", "Lean 4 theorems (admission decision logic, storage/delivery/clearing of set_data values, ordering from the dependency guard) + reply-by-reply correspondence with in-step set_data/get_data calls + monitor on implementation traces",
          "Theorems: a request is refused with the ScenarioError iff there is no async connection; an accepted set_data is stored with the target, is in the inputs of the target's next step (precedence over remembered values) and is cleared by it (exactly once); when A begins t every agent B has progressed to t, so A never begins a later step while B's step is in flight. The data path of an asynchronous get_data is not modelled (admission only).",
          "Same hypotheses as C01. Assumes no ordinary connection feeds the same key as a set_data call. Trusted: Lean kernel, correspondence harness."),
+ "C17": ("corr-sched", "Lean 4 invariant (progress <= ceil(clock / f) in every reachable state of the clock-extended transition system) + decision logic of rt_check / set_event + correspondence on a virtual clock + monitor",
+         "Theorems on an integer-tick clock: progress_le_cap / not_early (a step for t begins only at clock > f*(t-1), any interleaving and tick pattern, grouped simulators included); set_event: error outside rt mode, ignored at/after until, scheduled before; rt_strict changes only warning vs RuntimeError at the same condition. The clause 'instant simulators are never reported too slow' is FALSE for connected simulators (finding C17-instant-too-slow; negation proved on a witness run in Findings.lean). Correspondence: the real rt code path on a virtual clock owned by the event loop (timers, polling timeouts, perf_counter patched).",
+         "Float rounding of perf_counter arithmetic and real timers are not modelled (integer ticks: rt_factor*time_resolution whole, clock takes timer-deadline values only). Known finding C17-instant-too-slow (D13). Trusted: Lean kernel, correspondence harness incl. the virtual-clock loop."),
 }
 
 NOT_YET = {
